@@ -188,6 +188,10 @@ Definition wf_layout (d : doc) (l : layout) : Prop :=
   sep_ok (gap l) (toks_fields d) 0 /\
   (bom l = false -> has_bom (render d l) = false).
 
+(* the same layout with [pad] more bytes of left padding *)
+Definition with_pad (pad : bytes) (l : layout) : layout :=
+  mkLayout (bom l) (fun i => if Nat.eqb i 0 then pad ++ gap l 0 else gap l i).
+
 (* ------------------------------------------------------------------ well-formed documents *)
 (* bare word: non-empty, no boundary byte, does not start with a double quote or a semicolon
    (skipped as white space), and is not a lone '@' (which would glue to a following '[') *)
